@@ -369,6 +369,47 @@ def r_reserve_hint_lower(F, R, cat=None):
     R.info("R-RESERVE-ITEMS: %d reservations taken from size_hint" % n)
 
 
+def r_reserve_additional(F, R, cat=None):
+    """`reserve(n)` asks for room for n *more* elements.  An amount that already contains the
+    receiver's current length (`v.reserve(v.len() + k)`, or a saved `start_len + k`) asks for the
+    total again: on an exactly pre-sized storage that is more than the spare capacity, so it
+    reallocates although the announced contents fit."""
+    from core import all_ctxs
+    from expr import lin, nobb
+    n = 0
+    for top in F.bodies.values():
+        if top.in_tests() or top.derived or top.kind == "Closure":
+            continue
+        for ctx in all_ctxs(F, top):
+            for (bi, t) in ctx.body.calls():
+                if classify(t.get("callee")) != "reserve" or len(t["args"]) < 2 or t["args"][0]["k"] == "const":
+                    continue
+                recv = nobb(trees(ctx, ctx.org.operand(t["args"][0])))
+                if recv[0] != "place":
+                    continue
+                amount = nobb(trees(ctx, ctx.org.operand(t["args"][1])))
+                d = lin(amount)
+                bad = None
+                for k, v in d.items():
+                    if k == 1 or v <= 0 or not isinstance(k, tuple):
+                        continue
+                    is_len = (k[0] == "call" and k[1][1] == "len" and k[2] and k[2][0] == recv) or \
+                             (k[0] == "len" and k[1] == recv) or \
+                             (k[0] == "un" and k[1] == "PtrMetadata" and k[2] == recv)
+                    if is_len:
+                        bad = k
+                n += 1
+                if bad is None:
+                    continue
+                R.saw(top)
+                R.check("R-RESERVE-ITEMS", top.label(), False, construct="reserve takes the additional count",
+                        where="%s:%s" % (ctx.body.file, t["line"]),
+                        detail="the amount %s includes the receiver's own length %s: reserve(len + n) asks for the "
+                               "total a second time and reallocates a storage that was sized exactly" % (
+                                   show(amount)[:80], show(bad)[:50]))
+    R.info("R-RESERVE-ITEMS: %d reserve calls inspected for amounts that include the receiver's length" % n)
+
+
 def r_reserve_items_agree(F, R, cat=None):
     cat = cat or Catalogue(F)
     n = 0
